@@ -54,7 +54,7 @@ func c13Scenarios() []c13Scenario {
 		out = append(out, c13Scenario{"auditlog", "downstream-full-consumer-stopped", c})
 		out = append(out, c13Scenario{"auditlog", "downstream-empty-consumer-running", c})
 	}
-	out = append(out, c13Scenario{"read", "idle", 0}, c13Scenario{"read", "busy", 0})
+	out = append(out, c13Scenario{"read", "idle", 0}, c13Scenario{"read", "busy", 0}, c13Scenario{"read", "flushing-expired-events", 0})
 	return out
 }
 
@@ -75,7 +75,14 @@ func childC13(args []string) {
 			continue // two witnesses of this hang are enough; each costs a full watchdog
 		}
 		out.begin(i, fmt.Sprintf("%s/%s/cap=%d", sc.Worker, sc.State, sc.Cap))
-		if sc.Worker == "read" {
+		if sc.Worker == "read" && sc.State == "flushing-expired-events" {
+			// costs the reassembler's 2 s event timeout: one repetition in five
+			if (i/len(scs))%5 == 0 {
+				c13ReadExpiring(i, sc, out)
+			} else {
+				out.class("read|" + sc.State) // covered by the repetitions that do run it
+			}
+		} else if sc.Worker == "read" {
 			c13Read(seed, i, sc, out)
 		} else {
 			c13Ingest(seed, i, sc, dir, out)
@@ -368,6 +375,106 @@ func c13Read(seed int64, i int, sc c13Scenario, out *childOut) {
 	}
 }
 
+// c13ReadExpiring: records of a correlated session whose terminating record
+// never arrives are flushed by the reassembler's maintenance goroutine once
+// they expire (2 s). The event writer is held while that flush is under way
+// and the context is cancelled: Read may only return once the flush is over -
+// nothing may be written after the return.
+func c13ReadExpiring(i int, sc c13Scenario, out *childOut) {
+	rec := vlib.NewRec()
+	rec.Entered = make(chan struct{}, 64)
+	audits := make(chan string)
+	logins := make(chan common.RemoteUserLogin)
+	a := auditd.Auditd{Audits: audits, Logins: logins, EventW: rec.Writer(), Health: health.NewHealth()}
+	ctx, cancel := context.WithCancel(context.Background())
+	defer cancel()
+	done := make(chan error, 1)
+	go func() { done <- a.Read(ctx) }()
+	sig := "C13:read:" + sc.State
+	wit := map[string]any{"index": i, "scenario": sc}
+	pid := 43000 + i%1000
+	sid := strconv.Itoa(900 + i%90)
+	give := func(f func() bool) bool {
+		ok := make(chan bool, 1)
+		go func() { ok <- f() }()
+		select {
+		case v := <-ok:
+			return v
+		case <-time.After(c13Watch):
+			return false
+		}
+	}
+	okSetup := give(func() bool {
+		logins <- common.RemoteUserLogin{Source: identityEvent(2, pid, time.Now().UTC()), PID: pid, CredUserID: "c"}
+		logins <- common.RemoteUserLogin{Source: identityEvent(9999, 3999996, time.Now().UTC()), PID: 3999996, CredUserID: "s"}
+		audits <- vlib.AuLogin(vlib.BaseTSms, 10, strconv.Itoa(pid), sid)
+		const K = 5
+		for k := 0; k < K; k++ {
+			ls := vlib.ExecSpec{TSms: vlib.BaseTSms + int64(20+k), Seq: uint32(20 + k), PID: pid + 1, Ses: sid, Success: "yes", Exe: "/usr/bin/ls", Args: []string{"ls", strconv.Itoa(k)}, Cwd: "/"}.Lines()
+			for _, l := range ls[:len(ls)-1] { // without the terminating PROCTITLE: the event stays open
+				audits <- l
+			}
+		}
+		return true
+	})
+	if !okSetup {
+		out.inconclusive(sig + ": Read did not accept the set-up")
+		return
+	}
+	// the LOGIN record's own emission
+	select {
+	case <-rec.Entered:
+	case <-time.After(c13Watch):
+		out.inconclusive(sig + ": the LOGIN record was not emitted")
+		return
+	}
+	rec.Hold()
+	// the maintenance goroutine starts flushing the expired events (after ~2-2.5 s)
+	select {
+	case <-rec.Entered:
+	case <-time.After(c13Watch):
+		out.inconclusive(sig + ": no expired event was flushed within the watchdog")
+		rec.Release()
+		return
+	}
+	out.add("states_reached", 1)
+	out.class("read|" + sc.State)
+	cancel()
+	var stamp int64
+	select {
+	case <-done:
+		stamp = vlib.Tick() // returned although the flush is still under way
+	case <-time.After(300 * time.Millisecond):
+	}
+	rec.Release()
+	if stamp == 0 {
+		select {
+		case <-done:
+			stamp = vlib.Tick()
+		case <-time.After(c13Watch):
+			stuck, why := classifyStacks(vlib.AllStacks(), "auditd.(*Auditd).Read")
+			if stuck {
+				out.violation(sig+":stuck-after-cancel", "Read still parked after cancel and release of the writer: "+why, wit)
+			} else {
+				out.inconclusive(sig + ": no return within the watchdog: " + why)
+			}
+			return
+		}
+	}
+	out.add("cancellations", 1)
+	time.Sleep(20 * time.Millisecond)
+	late := 0
+	for _, c := range rec.Calls() {
+		if c.Seq > stamp {
+			late++
+		}
+	}
+	out.add("expired_events_flushed", rec.Len()-1)
+	if late > 0 {
+		out.violation(sig+":delivery-after-return", fmt.Sprintf("%d expired events were written after Read had returned", late), wit)
+	}
+}
+
 func checkC13(r *vlib.Run) int {
 	n := len(c13Scenarios()) * r.Pick(50, 1000)
 	res := runChildren(r, "mon-race", "c13", n, (n+15)/16, 20*time.Minute)
@@ -376,11 +483,12 @@ func checkC13(r *vlib.Run) int {
 	r.Set("cancellations_returned", res.stats["cancellations"])
 	r.Set("max_return_latency_us_informational", res.stats["max:return_latency_us"])
 	r.Set("events_before_return_in_busy_read", res.stats["events_before_return"])
+	r.Set("expired_events_flushed_by_maintenance", res.stats["expired_events_flushed"])
 	r.Set("worker_state_combinations_reached", res.distinct.Keys())
 	r.Set("build", "-race")
 	r.Require(res.distinct.Len() == len(c13Scenarios()), fmt.Sprintf("only %d of %d worker/state combinations were reached", res.distinct.Len(), len(c13Scenarios())))
 	r.Assumptions = []string{"each blocking state is confirmed from the goroutine dump before cancel() is called; a worker that has not returned after the watchdog is a violation only if it is parked, otherwise inconclusive",
 		"'blocked because the output writer is held' is not among the states the statement lists and is not injected"}
 	_ = strings.Join
-	return r.Finish(n, res.distinct.Len(), "worker x blocking state x downstream capacity: {namedpipe, syslog, auditlog ingester} x {waiting for a writer, idle pipe, mid-record}; syslog ingester with the login hand-off blocked; auditlog ingester with the downstream channel full and the consumer stopped, capacities {0,1,16,10000}, and empty with a running consumer; Auditd.Read idle and under a continuous stream (deliveries after the return are counted by logical clock); distinct = states actually reached")
+	return r.Finish(n, res.distinct.Len(), "worker x blocking state x downstream capacity: {namedpipe, syslog, auditlog ingester} x {waiting for a writer, idle pipe, mid-record}; syslog ingester with the login hand-off blocked; auditlog ingester with the downstream channel full and the consumer stopped, capacities {0,1,16,10000}, and empty with a running consumer; Auditd.Read idle, under a continuous stream, and while its maintenance goroutine flushes expired events into a held writer (deliveries after the return are counted by logical clock); distinct = states actually reached")
 }
